@@ -36,6 +36,7 @@ const (
 	replyServerFatal
 	replyGarbledError // an error message whose payload is well-formed CBOR of the wrong shape, then the stream ends
 	replyGarbledDone  // the same for a work-done message
+	replyHalfDone     // a work-done whose first fields decode and a later one does not (a corrupted byte late in the message)
 	replyCount
 )
 
@@ -151,6 +152,10 @@ func VerifC08_BrokenStream() {
 				broken = true
 			case replyGarbledDone:
 				_ = enc.Encode(RuntimeMessage{MessageTypeWorkDone, run, "not a work done message"})
+				_ = fromSrvW.Close()
+				broken = true
+			case replyHalfDone:
+				_ = enc.Encode(RuntimeMessage{MessageTypeWorkDone, run, map[string]any{"step_id": "inc", "output_id": "ok", "output_data": map[string]any{"o": int64(7)}, "debug_logs": int64(5)}})
 				_ = fromSrvW.Close()
 				broken = true
 			case replyServerFatal:
